@@ -52,6 +52,10 @@ func (f *fileEvent) OnEvent(progress *PackageProgress) {
 			curPack.CurrentSize, curPack.FileSize, curPack.Offset)
 	case ProgressStageSupplementary:
 		curPack := extension.CurrentPackage
+		if curPack == nil { // 还没有收到任何文件码流就收到了0x1212
+			str += " 文件补传传输中 暂未收到文件码流"
+			break
+		}
 		str += fmt.Sprintf(" 文件补传传输中[%s] 进度[%d/%d] 偏移[%d]", curPack.FileName,
 			curPack.CurrentSize, curPack.FileSize, curPack.Offset)
 	case ProgressStageStreamDataComplete:
@@ -70,6 +74,10 @@ func (f *fileEvent) OnEvent(progress *PackageProgress) {
 	case ProgressStageFailQuit:
 		str += fmt.Sprintf(" 文件传输异常 [%v]", extension.Err)
 	case ProgressStageSuccessQuit:
+		if progress.ExtensionFields.RecentTerminalMessage == nil { // 连接后没有上传任何报文就断开了
+			str += " 未收到任何报文 没有需要保存的文件"
+			break
+		}
 		phone := progress.ExtensionFields.RecentTerminalMessage.Header.TerminalPhoneNo
 		str += fmt.Sprintf(" 文件传输成功 开始保存 保存数量[%d] 地方标准[%s]\n",
 			len(progress.Record), progress.ExtensionFields.ActiveSafetyType.String())
